@@ -9,12 +9,9 @@ template<class Geod> static void props(const char* name, const Geod& g, double a
   if (std::isnan(acc)) return;
   Inv r = inv(g, lat1, lon1, lat2, lon2);
   double tol = tol_pos(acc, ea, r.a12);
-  // Finding F26 (known_findings.json): on strongly prolate ellipsoids (f <= -0.3) the exact solver loses accuracy for nearly antipodal
-  // points next to the equator (the two symmetric geodesics merge with the equatorial one there): closure errors of millimetres against
-  // a documented 25-100 nm.  Class: exact solver, f <= -0.3, both |lat| <= 1 deg, |lon12| within 1 deg of 180, error <= 5 cm; anything
-  // larger, or outside the class, is reported under the ordinary relation name.
-  bool f26c = std::string(name) == "exact" && f <= -0.3 && std::fabs(lat1) <= 1 && std::fabs(lat2) <= 1 && std::fabs(std::fabs(Math::AngDiff(lon1, lon2)) - 180) <= 1;
-  auto rel = [&](const char* base, double err_m) { return std::string(f26c && err_m <= 0.05 ? "F26-prolate-antipodal-exact: " : "") + base + "-" + name; };
+  // (F26/F28, fixed by d06599a: the exact solver used to stop bisecting too early for nearly equatorial geodesics on strongly prolate
+  //  ellipsoids — closure errors from millimetres to hundreds of kilometres; the strata 13 of generate() keep watching that region)
+  auto rel = [&](const char* base, double) { return std::string(base) + "-" + name; };
   // (1) the returned geodesic really joins the points: follow it with the specification oracle
   if (oracle_ok(f)) {
     oracle::Line L(ea, f, lat1, lon1, r.azi1); oracle::Line::Pos p = L.position(false, r.s12);
